@@ -190,7 +190,8 @@ Definition limit : nat := 200.
 Record lora := mkLO { lo_size : Z; lo_active : bool; lo_extfail : bool }.
 (* oracle of one consumer in EndBlockVSU: validator set changed, new size, SendPacket answer
    (0 ok, 1 ErrClientNotActive, 2 + j: another error on packet number j) *)
-Record eora := mkEO { eo_changes : bool; eo_size : Z; eo_mode : Z }.
+Record eora := mkEO { eo_changes : bool; eo_size : Z; eo_mode : Z;
+                      eo_stopfail : bool  (* staking.UnbondingTime fails inside the stop that follows a send failure *) }.
 
 Fixpoint lookup {A} (d : A) (l : list (Z * A)) (c : Z) : A :=
   match l with
@@ -323,6 +324,12 @@ Definition stop_and_prepare (U : Z) (s : state) (c : Z) : state :=
   let s1 := upd s c (fun r => set_proto (p_set_removal t (c_proto r)) (set_phase 4 r)) in
   set_remq (tq_append (s_remq s1) t c) s1.
 
+(* PRE-FIX behaviour of a stop whose UnbondingTime call fails inside SendVSCPacketsToChain (before the repair of
+   finding C19-stop-without-removal), kept for the record only; NOT used by [run]/[step]: the phase was already set
+   to stopped when the error was returned (and swallowed by the caller), so the consumer ended up stopped with no
+   removal time and no removal-queue entry *)
+Definition stop_unscheduled_prefix (s : state) (c : Z) : state := upd s c (set_phase 4).
+
 (* RemoveConsumer *)
 Definition do_remove (U : Z) (s : state) (c sender : Z) : state * Z :=
   match get s c with
@@ -427,7 +434,7 @@ Definition do_begin (s : state) (now : Z) (ora : list (Z * lora)) : state * Z :=
     (remove_loop (set_remq rq' s1) rids, r_ok)
   end.
 
-Definition no_eora : eora := mkEO false 0 0.
+Definition no_eora : eora := mkEO false 0 0 false.
 
 (* QueueVSCPackets, one consumer of GetAllConsumersWithIBCClients: launched-phase filter, new validator set,
    a packet when there are changes (consuming the slash acks) *)
@@ -463,7 +470,12 @@ Definition send_one (U : Z) (ora : list (Z * eora)) (s : state) (c : Z) : state 
           let j := Z.max 0 (m - 2) in
           if p_pending (c_proto r) <=? j then
             upd s c (fun r => set_sent (c_sent r + p_pending (c_proto r)) (set_proto (p_set_pending 0 (c_proto r)) r))
-          else stop_and_prepare U (upd s c (fun r => set_sent (c_sent r + j) r)) c
+          else
+            let s1 := upd s c (fun r => set_sent (c_sent r + j) r) in
+            (* StopAndPrepareForConsumerRemoval reads the unbonding period before it changes anything (repair of
+               finding C19-stop-without-removal): when that fails the error is logged and the consumer stays
+               launched with its packets queued *)
+            if eo_stopfail (lookup no_eora ora c) then s1 else stop_and_prepare U s1 c
     else s
   end.
 
@@ -496,7 +508,7 @@ Definition result (U : Z) (s : state) (o : op) : Z := snd (exec U s o).
      [2, c, sender, nc, no, ini]            nc = [] | [chain, rev];  no = [] | [owner]
      [3, c, sender]   [4, c, v, withkey]   [5, c, tag]   [6, c]
      [7, now, [[c, size, active, extfail]...]]
-     [8, epoch, [c...], [[c, changes, size, mode]...]]
+     [8, epoch, [c...], [[c, changes, size, mode, stopfail]...]]      (stopfail optional, default 0)
      [9, c]   [10, c]   [11]
    output = [ [obs after op 1, ...], [residual store prefixes per consumer at the end] ]
      obs = [code, next id, [consumer...], spawn queue, removal queue]
@@ -512,7 +524,7 @@ Definition dec_pair (t : tree) : option (Z * Z) :=
 Definition dec_lora (t : tree) : Z * lora :=
   (tz (tnth 0 t), mkLO (tz (tnth 1 t)) (tbool (tnth 2 t)) (tbool (tnth 3 t))).
 Definition dec_eora (t : tree) : Z * eora :=
-  (tz (tnth 0 t), mkEO (tbool (tnth 1 t)) (tz (tnth 2 t)) (tz (tnth 3 t))).
+  (tz (tnth 0 t), mkEO (tbool (tnth 1 t)) (tz (tnth 2 t)) (tz (tnth 3 t)) (tbool (tnth 4 t))).
 
 Definition dec_op (t : tree) : op :=
   let a n := tz (tnth n t) in
@@ -653,6 +665,9 @@ Definition targets (o : op) (c : Z) : bool :=
    11 removal schedule: not exactly the first min(200, due) ids of the removal queue were processed, or a stopped
       consumer among them was not deleted
    12 the raw store holds keys for a consumer that its records do not account for (or lacks some)
+   16 a stopped consumer is not scheduled for removal under its removal time
+   14 EndBlock returned an error
+   15 an operation panicked
    13 a consumer with an established channel was deleted but its channel was not closed (the implementation's
       observation of a consumer carries, as 14th element, whether the IBC channel object is CLOSED; the model
       does not track IBC's channel state, the projection drops the element before the comparison) *)
@@ -696,7 +711,8 @@ Definition mon_snapshot (s : state) : list Z :=
             else Nat.eqb (occ (c_id r) ids) 0 && (negb (c_phase r =? 1) || (d_spawn (c_desc r) =? 0)))
             (s_cons s)) ++
   flag 4 (forallb (fun r => negb (c_phase r =? 3) || (p_genesis (c_proto r) && p_client (c_proto r))) (s_cons s)) ++
-  flag 8 (forallb (fun r => negb (c_phase r =? 5) || proto_empty_core (c_proto r)) (s_cons s)).
+  flag 8 (forallb (fun r => negb (c_phase r =? 5) || proto_empty_core (c_proto r)) (s_cons s)) ++
+  flag 16 (forallb (fun r => negb (c_phase r =? 4) || mem (c_id r) (tq_get (s_remq s) (p_removal (c_proto r)))) (s_cons s)).
 
 (* clauses about one step; [stops] = first stop time per stopped consumer; returns the new [stops] too *)
 Definition mon_step (U now qc : Z) (stops : list (Z * Z)) (closed : list (Z * bool)) (o : op) (code : Z) (a b : state) : list Z * list (Z * Z) :=
@@ -751,7 +767,9 @@ Definition mon_step (U now qc : Z) (stops : list (Z * Z)) (closed : list (Z * bo
   let stops' :=
     fold_left (fun acc r =>
       if (phase_of a (c_id r) =? 3) && (c_phase r =? 4) then (c_id r, now) :: acc else acc) (s_cons b) stops in
-  (c1 ++ c2 ++ c6 ++ c7 ++ c8 ++ c9 ++ c13 ++ sched ++ mon_snapshot b, stops').
+  let c14 := flag 14 (match o with OEnd _ _ _ => code =? 0 | _ => true end) in
+  let c15 := flag 15 (negb (code =? 100)) in
+  (c1 ++ c2 ++ c6 ++ c7 ++ c8 ++ c9 ++ c13 ++ c14 ++ c15 ++ sched ++ mon_snapshot b, stops').
 
 (* [qc] = number of quiet create ops since the last observation *)
 Fixpoint mon_ops (U now qc : Z) (stops : list (Z * Z)) (a : state) (ops : list (bool * op)) (obs : list tree)
